@@ -279,6 +279,17 @@ func runC09(raw json.RawMessage) interface{} {
 		}
 		st.Rem = describeRemote(cache)
 		probe(lim, cache, probeCap(), st)
+		if cs != nil {
+			// the request of the next allocate round is built from the same state; it must not panic either
+			func() {
+				defer func() {
+					if r := recover(); r != nil {
+						st.Sel, st.Lim, st.Adm = "panic", nil, -1
+					}
+				}()
+				remote.VerifBuildLimitConditions(rec)
+			}()
+		}
 	}
 	{
 		var st c09Step
